@@ -250,9 +250,31 @@ func returnsZeroStruct(fn *ssa.Function) bool {
 		if !ok || len(ret.Results) == 0 {
 			return
 		}
-		if k, ok := ret.Results[0].(*ssa.Const); ok && k.Value == nil {
-			if _, isStruct := k.Type().Underlying().(*types.Struct); isStruct {
-				found = true
+		isAgg := func(t types.Type) bool {
+			switch t.Underlying().(type) {
+			case *types.Struct, *types.Array:
+				return true
+			}
+			return false
+		}
+		if k, ok := ret.Results[0].(*ssa.Const); ok && k.Value == nil && isAgg(k.Type()) {
+			found = true
+		}
+		// an empty composite literal materialised in memory: a load of a local that nothing writes
+		if ld, ok := ret.Results[0].(*ssa.UnOp); ok && isAgg(ld.Type()) {
+			if al, ok := ld.X.(*ssa.Alloc); ok {
+				written := false
+				for _, ref := range *al.Referrers() {
+					switch x := ref.(type) {
+					case *ssa.Store:
+						written = written || x.Addr == ssa.Value(al)
+					case *ssa.IndexAddr, *ssa.FieldAddr:
+						written = true
+					}
+				}
+				if !written {
+					found = true
+				}
 			}
 		}
 	})
